@@ -1,10 +1,13 @@
 #!/bin/bash
-# for every seeded change: apply to /repo, run its checks (quick), revert; prints the detection matrix
+# for every seeded change: apply to a scratch copy of /repo/kingdon (KVC_REPO; /repo untouched, evidence redirected), run the
+# checks named in its meta.json (quick tier); prints the detection matrix
 cd /verif
+SCR=/var/tmp/kvcscratch/matrix; rm -rf $SCR; mkdir -p $SCR/out
 for d in seeded/*/; do n=$(basename $d); props=$(python3 -c "import json;print(' '.join(json.load(open('$d/meta.json'))['checks_to_run']))")
-  git -C /repo apply /verif/$d/patch.diff || { echo "$n: patch does not apply"; continue; }
+  rm -rf $SCR/repo; mkdir -p $SCR/repo; cp -r /repo/kingdon $SCR/repo/kingdon
+  (cd $SCR/repo && patch -s -p1 < /verif/$d/patch.diff) || { echo "$n: patch does not apply"; continue; }
   line="$n:"
-  for p in $props; do ./check $p --tier quick > /tmp/seedm_$p.log 2>&1; rc=$?; o=$(grep -c "VIOLATION" /tmp/seedm_$p.log); ref=$(tail -1 /tmp/seedm_$p.log | grep -o "refuted=[0-9]*"); sf=$(tail -1 /tmp/seedm_$p.log | grep -o "standin_failures=[0-9]*"); oos=$(tail -1 /tmp/seedm_$p.log | grep -o "out_of_subset=[0-9]*"); nf=$(grep -c "no-failing-input-found" /tmp/seedm_$p.log); line="$line $p(exit=$rc,$ref,$sf,$oos,nofail=$nf)"; done
-  git -C /repo checkout -- .
+  for p in $props; do KVC_REPO=$SCR/repo KVC_OUT=$SCR/out ./check $p --tier quick > $SCR/out/$n.$p.log 2>&1; rc=$?; t=$(tail -1 $SCR/out/$n.$p.log); line="$line $p(exit=$rc,$(echo $t | grep -o 'refuted=[0-9]*'),$(echo $t | grep -o 'standin_failures=[0-9]*'),$(echo $t | grep -o 'out_of_subset=[0-9]*'),nofail=$(grep -c no-failing-input-found $SCR/out/$n.$p.log))"; done
   echo "$line"
 done
+rm -rf $SCR
